@@ -265,6 +265,62 @@ CHECKS['C07'] = dict(
     technique='Lean 4 proof (partition by side tags) + differential correspondence + two-sided numeric oracle',
     design='6/C07')
 
+CHECKS['C10'] = dict(
+    text='Lean 4 theorems about a model (Model/Apply.lean, over the shared expression AST and the simultaneous '
+         'replacement of Model/Subst.lean) of BilinearForm.__call__, LinearForm.__call__, the keyword update of free '
+         'variables (BasicForm._free_variables_subs) and BilinearForm.is_symmetric: call_self - calling a form on its own '
+         'arguments returns its integrals unchanged; call_swap / swap_twice - calling a bilinear form on (tests, trials) '
+         'is the leaf-wise exchange of the two argument lists in every integrand, and that exchange is an involution '
+         '(hypotheses: arguments are functions, pairwise distinct, as many trials as tests); sequential_differs - one '
+         'simultaneous replacement and replacement one pair after the other differ on u*v (the behaviour that was '
+         'repaired); call_untouched - a successful call keeps the list of integration domains and is ONE replacement '
+         'whose keys are arguments or declared free variables, and which leaves every subterm not containing a key '
+         'unchanged; kw_unknown_refused - a keyword that names no free variable is a ValueError for both kinds of '
+         'form; sameIntegrals_sound / isSymmetric_sound - a positive verdict of is_symmetric implies that the '
+         'exchanged form has the same domains in the same order and that every pair of integrands has equal '
+         'denotation in every differential ring (through a verified commutative-ring normaliser, Model/RingEq.lean, '
+         'ringEq_sound). Tied to the code by a differential run on random forms (unmapped 2D/3D domains, boundary '
+         'integrals, 1-2 arguments per list, compound values, keyword values) and an oracle that recomputes every '
+         'call by an independent two-phase placeholder replacement, checks call-self, swap-twice and, whenever '
+         'is_symmetric is True, that the form and its exchange agree on explicit functions.',
+    note='One defect repaired (commit 2a89618: keyword values were substituted one after the other, before and '
+         'separately from the arguments, so a value mentioning another free variable or an argument was substituted '
+         'again). Trusted: Lean kernel (+propext/Classical.choice/Quot.sound), harness and shared serialiser, sympy '
+         'xreplace = subst (structural equality of the serialised trees), Integral.__eq__ modelled as ringEq '
+         '(expand-to-zero) on the integrand; is_symmetric compares integrals position by position after IntAdd '
+         'ordering (an IntAdd reordering would give a false negative, never a false positive); the converse of '
+         'isSymmetric_sound and the composition law subst_compose are not proved.',
+    technique='Lean 4 proof by mutual structural induction (substitution as a leaf map) + verified ring normaliser + differential correspondence',
+    design='6/C10')
+
+CHECKS['C08'] = dict(
+    text='Lean 4 theorems about a model (Model/Linear.lean) of is_linear_expression and of the verdicts of '
+         'LinearForm(...) / BilinearForm(...): substitution of fresh functions l, r and of the constant alpha, '
+         're-construction of every changed node (operator constructors of Model/Calc.lean, dx and F[i] on sums and '
+         'constant multiples, sympy Add/Mul canonicalisation), comparison by expand-to-zero (verified normaliser '
+         'Model/RingEq.lean). accept_sound - if the test accepts an integrand then, in every differential ring, '
+         'e[a:=l+r] = e[a:=l] + e[a:=r] and e[a:=alpha l] = alpha e[a:=l] (all arguments jointly), under the stated '
+         'hypothesis that re-construction preserves the meaning (ReevalSound); accept_sound_opfree - the same with no '
+         'hypothesis on the fragment without vector-calculus operators (sums, products, numeric powers, elementary '
+         'functions, partial derivatives, components), where reeval_opfree proves that hypothesis; '
+         'reject_sound_const / _power / _selfproduct / _selfproduct_deriv / _nonlinear_fn - for the integrand families '
+         'c + u (c != 0), u^m (m >= 2), u*u, u*dx(u), f(u) the model verdict is False, proved through a refuting '
+         'interpretation in the polynomial differential ring of Sem/Instances.lean (MvPolynomial over Q with formal '
+         'partial derivatives), which also witnesses that the DRing hypotheses of the project are satisfiable. Tied '
+         'to the code by a differential run of the two constructors on random candidate forms (linear ones, and '
+         'ones broken by a constant, power, self-product, sin/exp/sqrt, denominator, degree-one ratio, product of two '
+         'components of the argument list; 2D/3D, boundary terms, 1-2 arguments) and an oracle that decides '
+         'linearity independently by instantiating every function with rich explicit polynomials and testing joint '
+         'additivity and homogeneity at rational points; it flags false accepts, false rejects and stray exceptions.',
+    note='No defect found. Trusted: Lean kernel (+propext/Classical.choice/Quot.sound), harness and shared '
+         'serialiser, harness/inst.py instantiation in the oracle, sympy expand modelled as ring normalisation with '
+         'opaque atoms. degree_criterion / reject_sound_full (rejection of EVERY non-linear integrand) are stated as a '
+         'commented goal, not proved: outside the five families the exactness of rejections rests on the '
+         'correspondence and the oracle. accept_sound outside the operator-free fragment is conditional on '
+         'ReevalSound (gradEval_sound etc. of C02 discharge it per operator, not yet assembled).',
+    technique='Lean 4 proof (structural induction, verified ring normaliser, refutation in a concrete polynomial differential ring) + differential correspondence',
+    design='6/C08')
+
 NOT_YET = 'check not built yet in this round (design in DESIGN.md section 6); will be claimed when its model, theorems and correspondence exist'
 
 
